@@ -45,7 +45,14 @@ func newPM(options plugintypes.OperatorOptions) (plugintypes.Operator, error) {
 	data := options.Arguments
 
 	data = strings.ToLower(data)
-	dict := strings.Split(data, " ")
+	// Doubled, leading or trailing spaces yield empty phrases, which the matcher
+	// would report as matching at arbitrary inputs; only non-empty phrases count.
+	dict := make([]string, 0, 8)
+	for _, p := range strings.Split(data, " ") {
+		if p != "" {
+			dict = append(dict, p)
+		}
+	}
 	builder := ahocorasick.NewAhoCorasickBuilder(ahocorasick.Opts{
 		AsciiCaseInsensitive: true,
 		MatchOnlyWholeWords:  false,
